@@ -13,6 +13,8 @@ TYPES = {
     "timedelta": ("datetime.timedelta(days=1)", "datetime.timedelta(days=1, seconds=1)"),
     # a C-implemented function bound to a module-level name (from math import floor as V): which function it is matters
     "cfunc": ("math.floor", "math.ceil"),
+    # a concrete, relative path (what it resolves to depends on the working directory; its text does not)
+    "relpath": ("pathlib.Path('data/a.csv')", "pathlib.Path('data/b.csv')"),
     "dict_order": ("{'a': 1, 'b': 2}", "{'b': 2, 'a': 1}"), "set_like_list": ("[1, 2]", "[2, 1]"),
 }
 CONTEXTS = ["stmt", "if", "else", "for", "while", "with", "try", "finally", "listcomp", "genexp", "dictlit", "fstring", "ifexp",
